@@ -28,7 +28,7 @@ const OPTS: LifeOpts = LifeOpts {
     adversary: Some((150, 6, &SEVEN)),
     dup: true,
     generators: true,
-    hooks: false,
+    hooks: true,
     outputs: false, drop_outputs: true
 };
 
